@@ -1199,7 +1199,24 @@ func Run(j *job.Job, s *job.Sink) {
 			// single run on the complete set gives.
 			mode := "single"
 			if !fromDisk {
-				mode = []string{"single", "single", "single", "single", "single", "single", "single", "twice", "twice-cache-cleared", "staged"}[rng.Intn(10)]
+				mode = []string{"single", "single", "single", "single", "single", "single", "late-revision", "twice", "twice-cache-cleared", "staged"}[rng.Intn(10)]
+			}
+			// late-revision: a module that others import arrives twice. First, and before a
+			// processing run, as an older revision in which every top-level typedef is a
+			// boolean (and nothing else is defined); then as the newer revision that the
+			// reference describes. Whatever the first run bound to the older one must move.
+			var lateMod *schema.Mod
+			lateNew := ""
+			if mode == "late-revision" {
+				for _, m := range g.Mods {
+					if !m.Sub && len(m.Includes) == 0 && len(m.Revs) == 0 && len(m.Body.Typedefs) > 0 && imported[m.Name] {
+						lateMod = m
+						break
+					}
+				}
+				if lateMod == nil {
+					mode = "single"
+				}
 			}
 			s.Count("process_mode:"+mode, 1)
 			staged := map[string]bool{}
@@ -1216,6 +1233,24 @@ func Run(j *job.Job, s *job.Sink) {
 					if mode == "twice-cache-cleared" {
 						ms.ClearEntryCache()
 					}
+				case "late-revision":
+					for _, f := range cs.Files {
+						if f.Name == lateMod.Name+".yang" {
+							hdr := fmt.Sprintf("  prefix %s;\n", lateMod.Prefix)
+							lateNew = strings.Replace(f.Text, hdr, hdr+"  revision 2020-02-02;\n", 1)
+							old := fmt.Sprintf("module %s {\n  namespace %q;\n  prefix %s;\n  revision 2019-01-01;\n", lateMod.Name, lateMod.NS, lateMod.Prefix)
+							for _, td := range lateMod.Body.Typedefs {
+								old += fmt.Sprintf("  typedef %s { type boolean; }\n", td.Name)
+							}
+							ms.Parse(old+"}\n", lateMod.Name+"@2019-01-01.yang")
+							staged[f.Name] = true
+							continue
+						}
+						if ms.Parse(f.Text, f.Name) == nil {
+							staged[f.Name] = true
+						}
+					}
+					ms.Process()
 				case "staged":
 					n := 1 + rng.Intn(len(cs.Files))
 					for _, i := range rng.Perm(len(cs.Files))[:n] {
@@ -1227,6 +1262,11 @@ func Run(j *job.Job, s *job.Sink) {
 				}
 			}()
 			evs := hooklog.Collect(func() {
+				if lateNew != "" {
+					if err := ms.Parse(lateNew, lateMod.Name+"@2020-02-02.yang"); err != nil {
+						errs = append(errs, err)
+					}
+				}
 				for _, f := range cs.Files {
 					var err error
 					switch {
